@@ -12,7 +12,7 @@ from rxv import extract as X, context
 from rxv.engine import RULES
 import rxv.rules  # noqa
 SKIP_RULES = {"PANIC-INVENTORY", "TABLE-BLOCKS", "LOOP-VARIANT", "BORROW-SCOPE", "CLASS-RANGE-INCLUSIVE", "API-NONDET", "POSITIVE-CONTROLS", "API-SEND-SYNC"}
-INCIDENTAL = re.compile(r"\{closure#\d+\}|\|\d+$|\d+-sites|\d+-call-sites|#\d+$|^floor$|^rule-crashed$")
+INCIDENTAL = re.compile(r"\|row\[|\{closure#\d+\}|\|\d+$|\d+-sites|\d+-call-sites|#\d+$|^floor$|^rule-crashed$")
 fd, info = X.extract("/repo")
 ctx = context.make(fd, "/repo", "quick")
 out = {}
